@@ -41,6 +41,7 @@ static inline bool isNotZero(R a, Real eps) { (void)eps; return a != LEDGER_ZERO
 
 extern "C" {
    extern int g_n, g_nc;               /* numRows(), numCols() */
+   extern int g_ssdim;                 /* dimension of the function's local SSVector: numRows() (COLUMN) / numCols() (ROW) */
    extern int g_p;                     /* ghost POSITION in a dense vector of dimension numRows() */
    extern int g_i;                     /* ghost position in the index list of the sparse result */
    extern int g_w, g_in;               /* g_in: g_p belongs to the index set of the set-up result; then idx[g_w] == g_p */
@@ -82,6 +83,10 @@ static inline R* copy(R* b, R* e, R* d)
 }
 }
 
+#ifdef C05_ROW
+#include "c05_row_sparse.h"
+#endif
+
 /* VectorBase<R>(dim, ptr) copies dim values into its own storage (std::vector); storage = a scratch buffer */
 template <class T> struct VectorBase
 {
@@ -100,12 +105,27 @@ template <class T> struct VectorBase
    const T& operator[](int n) const { __CPROVER_assert(0 <= n && n < dimen, "VectorBase index in bounds"); return val[n]; }
    VecRange<T> vec() { VecRange<T> r; r.b = val; r.e = val + dimen; return r; }
    T* get_ptr() { return val; }
+#ifdef C05_ROW
+   /* x = sparse vector: clear(), then val[index(k)] = value(k) for k = 0..size-1 (vectorbase.h); modelled at the ghost
+      position: the cell g_p receives the value of the LAST entry whose index is g_p (tracked by add(i, v)), else 0 */
+   VectorBase<T>& operator=(const SVectorBase<T>& v)
+   {
+      int n = dimen; T* d = val;
+      if(n > 0)
+      {
+         __CPROVER_havoc_slice(d, (size_t)n * sizeof(T));
+         if(0 <= g_p && g_p < n) d[g_p] = (v.gpos >= 0 ? v.vals[v.gpos] : 0);
+      }
+      return *this;
+   }
+#endif
 };
 
 /* front end: the default constructor of a class-template instance with a base is only synthesised if an object of the
  * base instance was declared before (README 17) */
 static inline void c05_force_vectorbase() { VectorBase<R> a; (void)a; }
 
+#ifndef C05_ROW
 /* sparse vectors with at most ONE entry (unit vectors and their copies): all that the COLUMN branches build */
 template <class T> struct SVectorBase
 {
@@ -123,6 +143,7 @@ template <class T> struct DSVectorBase : SVectorBase<T>
 };
 
 static inline void c05_force_svector() { SVectorBase<R> a; DSVectorBase<R> b; (void)a; (void)b; }
+#endif
 
 /* SSVectorBase<R> : VectorBase<R> (as in ssvectorbase.h): dense values + index list + setup flag.  Type invariant of a
  * SET-UP vector (SSVectorBase::setup(), trusted): the index list holds exactly the positions of the nonzero values, each
@@ -133,7 +154,7 @@ template <class T> struct SSVectorBase : VectorBase<T>
    int* idx; int num; bool setupStatus;
    SSVectorBase(int n, TolStub*)
    {
-      __CPROVER_assert(n == g_n && !g_s1_used, "SSVectorBase(dim, tol): one local result vector of dimension numRows()");
+      __CPROVER_assert(n == g_ssdim && !g_s1_used, "SSVectorBase(dim, tol): one local sparse work vector of the basis dimension");
       this->val = (T*)gp_s1; g_s1_used = 1; this->dimen = n; idx = gp_xidx; num = 0; setupStatus = true;
       gp_local_x = this;
    }
